@@ -183,6 +183,14 @@ def harvest(eq, mesh, c, write=True):
                        x_points=[(p.R, p.Z) for p in getattr(eq, "x_points", [])], o_point=(eq.o_point.R, eq.o_point.Z) if getattr(eq, "o_point", None) is not None else None,
                        double_null_type=getattr(eq, "double_null_type", None), wall=np.array(getattr(eq, "closed_wallarray", np.zeros((0, 2)))),
                        region_names=list(eq.regions.keys()))  # fmt: skip
+    for dd, r in zip(out["regions"], mesh.regions.values()):
+        dd["leg_psi"] = getattr(r.equilibriumRegion, "psival", None)
+    if c.get("kind") == "tokamak":
+        try:
+            r1d, z1d, psi2d, psi1d, opts, wall, kw = tokamak_inputs(c)
+            out["profiles"] = dict(psi1d=np.array(psi1d), fpol1d=np.array(kw.get("fpol1D", [])), pressure=np.array(kw.get("pressure", [])))
+        except Exception:
+            out["profiles"] = None
     if write:
         import netCDF4
 
